@@ -2,55 +2,118 @@
    with the committed generated sources).
    Statements only: each theorem is closed by [exact] of a lemma proved in Proofs/Codegen.v.
 
-   Reading guide.  [svc]/[method]: what a tonic_build::Service / Method descriptor reports;
-   [opts]: emit_package, use_arc_self, default stubs, client/server only;
-   [gen_client o s]: one record per generated `pub async fn` (path literal, Grpc call used,
-   GrpcMethod pair, types); [gen_server o s]: SERVICE_NAME (= NamedService::NAME) and one record
-   per match arm of the generated `call`; [method_path S M] = "/" ++ S ++ "/" ++ M.
-   All statements are for every descriptor: any package (absent, nested), any identifiers, any
+   Reading guide (Model/Codegen.v mirrors tonic-build function by function).
+   [svc]/[method]: what a tonic_build::Service / Method implementation reports ([s_name]/[m_name]
+   are the Rust names, [s_ident]/[m_ident] the .proto spellings, [m_types] is
+   request_response_name); [manual_service] / [prost_service] are the two descriptor types with
+   their trait impls [manual_service_view] / [prost_service_view].
+   [client_generate_internal] = client::generate_internal, [server_generate_internal] =
+   server::generate_internal; each takes ITS OWN emit_package argument, as in the source.
+   [generate_client b]/[generate_server b] = CodeGenBuilder; [prost_compile b] / [manual_compile b] =
+   ServiceGenerator::generate + finalize of prost.rs / manual.rs for every Builder value [b].
+   A result [None] is a panic of the generator (format_ident!, parse_str(..).unwrap(), expect).
+   [client_mod]: one [client_fn] per generated `pub async fn` (signature, path literal, GrpcMethod
+   pair, Grpc call); [server_mod]: SERVICE_NAME, NamedService::NAME, one [trait_fn] per trait method
+   and one [server_arm] per arm of the generated `call` (literal, <Kind>Service impl, `fn call`
+   argument, ResponseStream, handler called, grpc call).  [method_path S M] = "/" ++ S ++ "/" ++ M.
+   [agreement n c sv] is spelled out by [c11_agreement_meaning].
+   All statements are for every descriptor: any package (absent, nested), any byte strings as
+   names (so also names that prost-build re-cases: [s_name] and [s_ident] are independent), any
    number of methods, every streaming combination, every option value. *)
 From Verif Require Import Lib.Bytes Lib.Obs.
 From Verif Require Import Gen.StatusTables Model.Router Proofs.Router Model.Codegen Proofs.Codegen.
 From Coq Require Import String.
 Open Scope N_scope.
+Local Notation length := Datatypes.length.
 
-(* client literal = server match literal = "/" ++ SERVICE_NAME ++ "/" ++ method *)
-Theorem c11_paths_agree : forall o s,
-  map c_path (gen_client o s) = map a_literal (sv_arms (gen_server o s)) /\
-  map a_literal (sv_arms (gen_server o s)) =
-  map (fun m => method_path (sv_service_name (gen_server o s)) (m_ident m)) (s_methods s).
-Proof. exact paths_agree. Qed.
+(* what "agree" means: per method, the client's path literal is the server's match-arm literal and
+   is "/" NAME "/" method with NAME = NamedService::NAME = SERVICE_NAME = the GrpcMethod service;
+   the streaming shape is the same in the client signature, the client Grpc call, the
+   <Kind>Service impl, its `fn call` argument / ResponseStream, the server Grpc call and the trait
+   signature; the message types are the same in all of these; the arm calls the trait method that
+   has the client method's name, with the receiver convention and stream type the trait declares *)
+Theorem c11_agreement_meaning : forall n c sv,
+  agreement n c sv <->
+  (length (cm_fns c) = n /\ length (sm_trait_fns sv) = n /\ length (sm_arms sv) = n /\
+   sm_named sv = sm_service_name sv /\
+   forall i f t a,
+     nth_error (cm_fns c) i = Some f -> nth_error (sm_trait_fns sv) i = Some t ->
+     nth_error (sm_arms sv) i = Some a ->
+     c_path f = a_literal a /\
+     a_literal a = method_path (sm_named sv) (snd (c_grpc_method f)) /\
+     fst (c_grpc_method f) = sm_named sv /\
+     c_call f = shape_of (c_req_streaming f) (c_resp_streaming f) /\
+     a_kind a = c_call f /\
+     a_grpc_call a = c_call f /\
+     shape_of (a_call_req_streaming a) (is_some (a_response_stream a)) = c_call f /\
+     shape_of (t_req_streaming t) (resp_is_stream (t_resp t)) = c_call f /\
+     c_input f = a_input a /\ t_input t = a_input a /\
+     c_output f = a_output a /\ trait_resp_item t = Some (a_output a) /\
+     a_trait a = sm_trait sv /\ a_fn a = t_fn t /\ c_fn f = t_fn t /\
+     a_inner_by_value a = t_arc_self t /\ stream_fits t a).
+Proof. exact agreement_unfold. Qed.
 
-(* same streaming shape, same message types, same trait method - method by method *)
-Theorem c11_shapes_agree : forall o s,
-  map c_shape (gen_client o s) = map a_shape (sv_arms (gen_server o s)) /\
-  map c_input (gen_client o s) = map a_input (sv_arms (gen_server o s)) /\
-  map c_output (gen_client o s) = map a_output (sv_arms (gen_server o s)) /\
-  map c_fn (gen_client o s) = map a_fn (sv_arms (gen_server o s)).
-Proof. exact shapes_agree. Qed.
+(* the two generators, each with its own emit_package argument, agree whenever the arguments are
+   equal (or the service has no package) - for every descriptor and all other options *)
+Theorem c11_internal_generators_agree : forall s ec es pp cw arc stubs c sv,
+  client_generate_internal s ec pp cw = Some c ->
+  server_generate_internal s es pp cw arc stubs = Some sv ->
+  ec = es \/ s_package s = [] ->
+  agreement (length (s_methods s)) c sv.
+Proof. exact internal_generators_agree. Qed.
 
-(* every combination of client and server streaming gets its own shape *)
-Theorem c11_shape_spec : forall m,
-  server_shape m =
-  match m_client_streaming m, m_server_streaming m with
-  | false, false => Unary | false, true => ServerStreaming
-  | true, false => ClientStreaming | true, true => Streaming
-  end.
-Proof. exact shape_spec. Qed.
+(* .. and only then: with different arguments the paths differ as soon as there is a package and a
+   method *)
+Theorem c11_paths_agree_iff : forall s ec es pp cw arc stubs c sv,
+  client_generate_internal s ec pp cw = Some c ->
+  server_generate_internal s es pp cw arc stubs = Some sv ->
+  (map c_path (cm_fns c) = map a_literal (sm_arms sv) <->
+   ec = es \/ s_package s = [] \/ s_methods s = []).
+Proof. exact paths_agree_iff. Qed.
 
-(* distinct method identifiers get distinct arms, so no arm is shadowed *)
-Theorem c11_paths_injective : forall o s, NoDup (map m_ident (s_methods s)) ->
-  NoDup (map a_literal (sv_arms (gen_server o s))).
-Proof. exact paths_injective. Qed.
+(* the three ways the generators are reached all pass one flag to both sides *)
+Theorem c11_codegen_builder_agrees : forall b s pp c sv,
+  generate_client b s pp = Some c -> generate_server b s pp = Some sv ->
+  agreement (length (s_methods s)) c sv.
+Proof. exact codegen_builder_agrees. Qed.
 
-Theorem c11_client_path_takes_its_arm : forall o s m, In m (s_methods s) ->
-  dispatch (registered o s) (c_path (gen_client_fn o s m)) = Some (m_ident m).
-Proof. exact client_path_takes_its_arm. Qed.
+Theorem c11_prost_builder_agrees : forall b s g c sv,
+  prost_compile b s = Some g -> g_client g = Some c -> g_server g = Some sv ->
+  agreement (length (ps_methods s)) c sv.
+Proof. exact prost_builder_agrees. Qed.
 
-(* the advertised service name is the path prefix the router registers *)
-Theorem c11_service_name_is_prefix : forall o s m, m_ident m <> [] ->
-  match_route (sv_service_name (gen_server o s)) (c_path (gen_client_fn o s m)) = Some (m_ident m).
-Proof. exact service_name_is_prefix. Qed.
+Theorem c11_manual_builder_agrees : forall b s g c sv,
+  manual_compile b s = Some g -> g_client g = Some c -> g_server g = Some sv ->
+  agreement (length (ms_methods s)) c sv.
+Proof. exact manual_builder_agrees. Qed.
+
+(* /package.Service/Method with the .proto spellings: the names prost-build derives (ps_name,
+   pm_name - re-cased, snake-cased, raw identifiers) never enter a wire string *)
+Theorem c11_prost_wire_names : forall b s g,
+  prost_compile b s = Some g ->
+  let name := wire_name (pb_emit_package b) (ps_package s) (ps_proto_name s) in
+  (forall sv, g_server g = Some sv ->
+     sm_service_name sv = name /\ sm_named sv = name /\
+     map a_literal (sm_arms sv) = map (fun m => method_path name (pm_proto_name m)) (ps_methods s)) /\
+  (forall c, g_client g = Some c ->
+     map c_path (cm_fns c) = map (fun m => method_path name (pm_proto_name m)) (ps_methods s) /\
+     map c_grpc_method (cm_fns c) = map (fun m => (name, pm_proto_name m)) (ps_methods s)).
+Proof. exact prost_wire_names. Qed.
+
+(* tonic_build::manual: NAME = package "." name, the route names; types modulo white space *)
+Theorem c11_manual_wire_names : forall b s g,
+  manual_compile b s = Some g ->
+  let name := wire_name true (ms_package s) (ms_name s) in
+  (forall sv, g_server g = Some sv ->
+     sm_service_name sv = name /\ sm_named sv = name /\
+     map a_literal (sm_arms sv) = map (fun m => method_path name (mm_route_name m)) (ms_methods s) /\
+     map (fun a => (a_input a, a_output a)) (sm_arms sv) =
+       map (fun m => (strip_ws (mm_input_type m), strip_ws (mm_output_type m))) (ms_methods s)) /\
+  (forall c, g_client g = Some c ->
+     map c_path (cm_fns c) = map (fun m => method_path name (mm_route_name m)) (ms_methods s) /\
+     map (fun f => (c_input f, c_output f)) (cm_fns c) =
+       map (fun m => (strip_ws (mm_input_type m), strip_ws (mm_output_type m))) (ms_methods s)).
+Proof. exact manual_wire_names. Qed.
 
 Theorem c11_service_name_spec : forall s emit,
   format_service_name s emit =
@@ -58,59 +121,216 @@ Theorem c11_service_name_spec : forall s emit,
   else s_ident s.
 Proof. exact service_name_spec. Qed.
 
-Theorem c11_grpc_method_agrees : forall o s m,
-  let c := gen_client_fn o s m in
-  c_path c = method_path (fst (c_grpc_method c)) (snd (c_grpc_method c)) /\
-  fst (c_grpc_method c) = sv_service_name (gen_server o s).
-Proof. exact grpc_method_agrees. Qed.
+(* the message types of a prost method: the same convert_type result on both sides *)
+Theorem c11_prost_message_types : forall b s g,
+  prost_compile b s = Some g ->
+  let ty := fun m => (convert_type (pb_proto_path b) (pb_compile_well_known_types b)
+                                   (pm_input_proto_type m) (pm_input_type m),
+                      convert_type (pb_proto_path b) (pb_compile_well_known_types b)
+                                   (pm_output_proto_type m) (pm_output_type m)) in
+  (forall sv, g_server g = Some sv ->
+     map (fun a => (a_input a, a_output a)) (sm_arms sv) = map ty (ps_methods s)) /\
+  (forall c, g_client g = Some c ->
+     map (fun f => (c_input f, c_output f)) (cm_fns c) = map ty (ps_methods s)).
+Proof. exact prost_message_types. Qed.
 
-(* with C10: a generated client method sent to Routes carrying the generated servers runs
-   exactly that method's handler *)
-Theorem c11_generated_client_reaches_handler : forall o regs r s m,
-  build (map (registered o) regs) = Some r -> names_ok (map (registered o) regs) ->
-  In s regs -> In m (s_methods s) -> m_ident m <> [] ->
-  serve r (c_path (gen_client_fn o s m)) = Handler (sv_service_name (gen_server o s)) (m_ident m).
+(* every combination of client and server streaming gets its own shape, in every place *)
+Theorem c11_shape_table : forall s ec es pp cw arc stubs m f t a,
+  client_generate_method s ec pp cw m = Some f ->
+  generate_trait_method pp cw arc stubs m = Some t ->
+  server_generate_method s es pp cw arc stubs m = Some a ->
+  match m_client_streaming m, m_server_streaming m with
+  | false, false => shape_everywhere Unary false false f t a
+  | false, true => shape_everywhere ServerStreaming false true f t a
+  | true, false => shape_everywhere ClientStreaming true false f t a
+  | true, true => shape_everywhere Streaming true true f t a
+  end.
+Proof. exact shape_table. Qed.
+
+(* what each side emits for a method, in terms of the descriptor and the options (use_arc_self and
+   generate_default_stubs included) *)
+Theorem c11_client_method_spec : forall s e pp cw m f,
+  client_generate_method s e pp cw m = Some f ->
+  c_fn f = m_name m /\
+  c_path f = format_method_path s m e /\
+  c_grpc_method f = (format_service_name s e, m_ident m) /\
+  c_req_streaming f = m_client_streaming m /\
+  c_resp_streaming f = m_server_streaming m /\
+  c_call f = shape_of (m_client_streaming m) (m_server_streaming m) /\
+  m_types m pp cw = Some (c_input f, c_output f).
+Proof. exact client_method_spec. Qed.
+
+Theorem c11_trait_method_spec : forall pp cw arc stubs m t,
+  generate_trait_method pp cw arc stubs m = Some t ->
+  t_fn t = m_name m /\
+  t_arc_self t = arc /\
+  t_req_streaming t = m_client_streaming m /\
+  t_default_body t = stubs /\
+  exists i o, m_types m pp cw = Some (i, o) /\ t_input t = i /\
+    (t_resp t, t_assoc t) =
+    if m_server_streaming m
+    then if stubs then (RBox o, None) else (RAssoc (stream_ident m), Some (stream_ident m, o))
+    else (RPlain o, None).
+Proof. exact trait_method_spec. Qed.
+
+Theorem c11_server_arm_spec : forall s e pp cw arc stubs m a,
+  server_generate_method s e pp cw arc stubs m = Some a ->
+  a_literal a = format_method_path s m e /\
+  a_kind a = shape_of (m_client_streaming m) (m_server_streaming m) /\
+  a_grpc_call a = shape_of (m_client_streaming m) (m_server_streaming m) /\
+  a_call_req_streaming a = m_client_streaming m /\
+  a_trait a = s_name s /\
+  a_fn a = m_name m /\
+  a_inner_by_value a = arc /\
+  exists i o, m_types m pp cw = Some (i, o) /\ a_input a = i /\ a_output a = o /\
+    a_response_stream a =
+    if m_server_streaming m
+    then Some (if stubs then RBox o else RAssoc (stream_ident m))
+    else None.
+Proof. exact server_method_spec. Qed.
+
+(* distinct method identifiers get distinct arms, so no arm is shadowed *)
+Theorem c11_paths_injective : forall s e pp cw arc stubs sv,
+  server_generate_internal s e pp cw arc stubs = Some sv ->
+  NoDup (map m_ident (s_methods s)) -> NoDup (map a_literal (sm_arms sv)).
+Proof. exact paths_injective. Qed.
+
+(* the generated `call` takes, for the literal the i-th client method sends, the i-th arm *)
+Theorem c11_client_path_takes_its_arm : forall s ec es pp cw arc stubs c sv i f a,
+  client_generate_internal s ec pp cw = Some c ->
+  server_generate_internal s es pp cw arc stubs = Some sv ->
+  ec = es \/ s_package s = [] ->
+  NoDup (map m_ident (s_methods s)) ->
+  nth_error (cm_fns c) i = Some f -> nth_error (sm_arms sv) i = Some a ->
+  call_arm sv (c_path f) = Some a.
+Proof. exact client_path_takes_its_arm. Qed.
+
+(* the advertised service name is the path prefix the router registers *)
+Theorem c11_service_name_is_prefix : forall s ec es pp cw arc stubs c sv i f m,
+  client_generate_internal s ec pp cw = Some c ->
+  server_generate_internal s es pp cw arc stubs = Some sv ->
+  ec = es \/ s_package s = [] ->
+  nth_error (cm_fns c) i = Some f -> nth_error (s_methods s) i = Some m -> m_ident m <> [] ->
+  match_route (sm_named sv) (c_path f) = Some (m_ident m).
+Proof. exact service_name_is_prefix. Qed.
+
+(* what Routes sees of a generated server *)
+Theorem c11_registered_generated : forall s e pp cw arc stubs sv,
+  server_generate_internal s e pp cw arc stubs = Some sv ->
+  registered sv = mkSvc (format_service_name s e) (map m_ident (s_methods s)).
+Proof. exact registered_generated. Qed.
+
+(* with C10: a generated client method sent to Routes carrying generated servers runs exactly that
+   method's handler *)
+Theorem c11_generated_client_reaches_handler : forall e gens r s sv pp cw c i f m,
+  Forall (generated_server e) gens ->
+  build (map (fun p => registered (snd p)) gens) = Some r ->
+  names_ok (map (fun p => registered (snd p)) gens) ->
+  In (s, sv) gens ->
+  client_generate_internal s e pp cw = Some c ->
+  nth_error (cm_fns c) i = Some f -> nth_error (s_methods s) i = Some m -> m_ident m <> [] ->
+  serve r (c_path f) = Handler (sm_named sv) (m_ident m).
 Proof. exact generated_client_reaches_handler. Qed.
 
-(* the agreement needs the SAME emit_package on both sides *)
 Theorem c11_emit_package_skew : forall s m, s_package s <> [] ->
   format_method_path s m true <> format_method_path s m false.
 Proof. exact emit_package_skew. Qed.
 
+(* panics: none on well-formed descriptors; each generator panics exactly for the listed reasons
+   (so e.g. a route name that is no identifier breaks the server generator only) *)
+Theorem c11_no_panic_on_well_formed : forall s ec es pp cw arc stubs,
+  service_wf pp cw s ->
+  (exists c, client_generate_internal s ec pp cw = Some c) /\
+  (exists sv, server_generate_internal s es pp cw arc stubs = Some sv).
+Proof. exact no_panic_on_well_formed. Qed.
+
+Theorem c11_client_panics_iff : forall s e pp cw,
+  client_generate_internal s e pp cw = None <->
+  mk_ident (s_name s ++ str "Client") = None \/
+  mk_ident (naive_snake_case (s_name s) ++ str "_client") = None \/
+  exists m, In m (s_methods s) /\
+    (m_codec_ok m = false \/ mk_ident (m_name m) = None \/ m_types m pp cw = None).
+Proof. exact client_panics_iff. Qed.
+
+Theorem c11_server_panics_iff : forall s e pp cw arc stubs,
+  server_generate_internal s e pp cw arc stubs = None <->
+  mk_ident (s_name s) = None \/
+  mk_ident (s_name s ++ str "Server") = None \/
+  mk_ident (naive_snake_case (s_name s) ++ str "_server") = None \/
+  exists m, In m (s_methods s) /\
+    (mk_ident (m_name m) = None \/ m_codec_ok m = false \/
+     mk_ident (m_ident m ++ str "Svc") = None \/ m_types m pp cw = None \/
+     (m_server_streaming m = true /\ stubs = false /\ mk_ident (m_ident m ++ str "Stream") = None)).
+Proof. exact server_panics_iff. Qed.
+
 (* ---- non-vacuity / worked examples ---- *)
 Definition b (s : string) : list N := bytes_of_string s.
-Definition ex_methods : list method :=
-  [ mkMethod (b "get") (b "Get") false false (b "crate::In") (b "crate::Out");
-    mkMethod (b "list") (b "List") false true (b "crate::In") (b "crate::Out");
-    mkMethod (b "put") (b "Put") true false (b "crate::In") (b "crate::Out");
-    mkMethod (b "r#type") (b "type") true true (b "crate::In") (b "crate::Out") ].
-Definition ex_nested := mkService (b "Svc") (b "a.b.c") (b "Svc") ex_methods.
-Definition ex_nopkg := mkService (b "Svc") [] (b "Svc") ex_methods.
-Definition ex_opts := mkOpts true false false true true.
+Definition pmeth (name proto : string) (cs ss : bool) : prost_method :=
+  mkPM (b name) (b proto) (b "In") (b "()") (b ".a.b.c.In") (b ".google.protobuf.Empty") cs ss.
+(* service HTTPEcho_service in package a.b.c: prost-build calls it HttpEchoService *)
+Definition ex_prost : prost_service :=
+  mkPS (b "HttpEchoService") (b "HTTPEcho_service") (b "a.b.c")
+       [ pmeth "get" "Get" false false; pmeth "list" "List" false true;
+         pmeth "put" "Put" true false; pmeth "r#type" "type" true true ].
+Definition ex_pb := mkPB true true (b "super") true false true true.
 
-Example c11_examples :
-  sv_service_name (gen_server ex_opts ex_nested) = b "a.b.c.Svc" /\
-  sv_service_name (gen_server ex_opts ex_nopkg) = b "Svc" /\
-  sv_service_name (gen_server (mkOpts false false false true true) ex_nested) = b "Svc" /\
-  map c_path (gen_client ex_opts ex_nested) =
-    [b "/a.b.c.Svc/Get"; b "/a.b.c.Svc/List"; b "/a.b.c.Svc/Put"; b "/a.b.c.Svc/type"] /\
-  map a_literal (sv_arms (gen_server ex_opts ex_nopkg)) =
-    [b "/Svc/Get"; b "/Svc/List"; b "/Svc/Put"; b "/Svc/type"] /\
-  map c_shape (gen_client ex_opts ex_nested) = [Unary; ServerStreaming; ClientStreaming; Streaming] /\
-  NoDup (map m_ident (s_methods ex_nested)).
+Example c11_prost_example :
+  exists g c sv,
+    prost_compile ex_pb ex_prost = Some g /\ g_client g = Some c /\ g_server g = Some sv /\
+    sm_named sv = b "a.b.c.HTTPEcho_service" /\
+    sm_trait sv = b "HttpEchoService" /\ cm_mod c = b "http_echo_service_client" /\
+    map c_path (cm_fns c) =
+      [b "/a.b.c.HTTPEcho_service/Get"; b "/a.b.c.HTTPEcho_service/List";
+       b "/a.b.c.HTTPEcho_service/Put"; b "/a.b.c.HTTPEcho_service/type"] /\
+    map c_call (cm_fns c) = [Unary; ServerStreaming; ClientStreaming; Streaming] /\
+    map a_kind (sm_arms sv) = [Unary; ServerStreaming; ClientStreaming; Streaming] /\
+    map c_fn (cm_fns c) = [b "get"; b "list"; b "put"; b "r#type"] /\
+    map (fun f => (c_input f, c_output f)) (cm_fns c) =
+      [(b "super::In", b "()"); (b "super::In", b "()"); (b "super::In", b "()"); (b "super::In", b "()")] /\
+    NoDup (map m_ident (s_methods (prost_service_view ex_prost))).
 Proof.
+  eexists _, _, _. split; [vm_compute; reflexivity|]. split; [reflexivity|]. split; [reflexivity|].
   repeat split; try reflexivity.
   repeat (constructor; [vm_compute; intuition discriminate|]). constructor.
 Qed.
 
-Example c11_e2e_premises_hold :
-  let regs := [ex_nested; mkService (b "SvcX") (b "a.b.c") (b "SvcX") ex_methods; ex_nopkg] in
-  build (map (registered ex_opts) regs) = Some (map (registered ex_opts) regs) /\
-  names_ok (map (registered ex_opts) regs).
-Proof. split; [reflexivity | repeat constructor]. Qed.
+(* without package emission, and a descriptor on which the generator panics *)
+Definition mmeth (name route : string) (cs ss : bool) : manual_method :=
+  mkMM (b name) (b route) (b "crate :: In") (b "crate::Out") cs ss true true true.
+Definition ex_manual (name : string) : manual_service :=
+  mkMS (b name) (b "pkg") [mmeth "get" "Get" false false; mmeth "chat" "Chat" true true].
+Example c11_manual_example :
+  (exists g c sv, manual_compile (mkMB true true) (ex_manual "Svc") = Some g /\
+     g_client g = Some c /\ g_server g = Some sv /\ sm_named sv = b "pkg.Svc" /\
+     map c_input (cm_fns c) = [b "crate::In"; b "crate::In"]) /\
+  (exists sv, generate_server (mkCGB false false true false) (manual_service_view (ex_manual "Svc")) [] = Some sv /\
+     sm_named sv = b "Svc" /\ map a_literal (sm_arms sv) = [b "/Svc/Get"; b "/Svc/Chat"] /\
+     map a_inner_by_value (sm_arms sv) = [true; true]) /\
+  manual_compile (mkMB true true) (ex_manual "my-service") = None /\
+  manual_compile (mkMB true false) (ex_manual "type") <> None /\
+  manual_compile (mkMB false true) (ex_manual "type") = None.
+Proof.
+  split; [|split; [|split; [|split]]].
+  - eexists _, _, _. split; [vm_compute; reflexivity|]. repeat split; reflexivity.
+  - eexists. split; [vm_compute; reflexivity|]. repeat split; reflexivity.
+  - vm_compute. reflexivity.
+  - vm_compute. discriminate.
+  - vm_compute. reflexivity.
+Qed.
 
-Print Assumptions c11_paths_agree.
-Print Assumptions c11_shapes_agree.
-Print Assumptions c11_paths_injective.
-Print Assumptions c11_service_name_is_prefix.
+Example c11_e2e_premises_hold :
+  exists sv1 sv2,
+    manual_server (ex_manual "Svc") = Some sv1 /\ manual_server (ex_manual "SvcX") = Some sv2 /\
+    build (map registered [sv1; sv2]) = Some (map registered [sv1; sv2]) /\
+    names_ok (map registered [sv1; sv2]).
+Proof.
+  eexists _, _. split; [vm_compute; reflexivity|]. split; [vm_compute; reflexivity|].
+  split; [vm_compute; reflexivity | repeat constructor].
+Qed.
+
+Print Assumptions c11_internal_generators_agree.
+Print Assumptions c11_paths_agree_iff.
+Print Assumptions c11_prost_builder_agrees.
+Print Assumptions c11_prost_wire_names.
 Print Assumptions c11_generated_client_reaches_handler.
+Print Assumptions c11_no_panic_on_well_formed.
